@@ -22,6 +22,8 @@ from collections import Counter
 
 from . import VERIF
 
+OUT = os.environ.get("VERIF_OUT", VERIF)     # evidence/ and replays/ go here (selftest redirects them)
+
 
 class HarnessError(Exception):
     """The harness, generator or a reference oracle is wrong; never a violation."""
@@ -251,7 +253,7 @@ def merge(parts):
 
 
 def write_replay(mod, key, bucket):
-    d = os.path.join(VERIF, "replays", mod.ID)
+    d = os.path.join(OUT, "replays", mod.ID)
     os.makedirs(d, exist_ok=True)
     payload = {"property": mod.ID, "key": key, "detail": bucket.get("detail", ""),
                "shrunk": bool(bucket.get("shrunk")), "case": bucket["case"]}
@@ -264,7 +266,7 @@ def write_replay(mod, key, bucket):
     path = os.path.join(d, name + ".json")
     with open(path, "w", encoding="utf-8") as f:
         json.dump(payload, f, indent=1, ensure_ascii=False, sort_keys=True)
-    return os.path.relpath(path, VERIF)
+    return os.path.relpath(path, VERIF) if OUT == VERIF else path
 
 
 def replay_file(mod, path, col=None):
@@ -297,7 +299,7 @@ def write_evidence(mod, tier, total, wall, violations, extra_cov=None):
         "wall_s": round(wall, 2),
         "violations": violations,
     }
-    d = os.path.join(VERIF, "evidence")
+    d = os.path.join(OUT, "evidence")
     os.makedirs(d, exist_ok=True)
     tmp = os.path.join(d, mod.ID + ".json.tmp")
     with open(tmp, "w", encoding="utf-8") as f:
